@@ -10,7 +10,8 @@ trap 'rm -rf "$W"' EXIT
 mkdir -p "$W/repo" "$W/verif"
 rsync -a --exclude .git "${MUTEST_REPO_SRC:-/repo}/" "$W/repo/"
 rsync -a --exclude .git --exclude .work --exclude replays --exclude evidence /verif/ "$W/verif/"
-( cd "$W/repo" && git init -q . >/dev/null 2>&1 && git apply --whitespace=nowarn "$PATCH" ) || { echo "MUTEST: patch does not apply"; exit 3; }
+# the seeds were cut against earlier commits of /repo: fall back to patch(1) with fuzz when the context has moved
+( cd "$W/repo" && git init -q . >/dev/null 2>&1 && { git apply --whitespace=nowarn "$PATCH" 2>/dev/null || patch -p1 -F3 -s --no-backup-if-mismatch < "$PATCH"; } ) || { echo "MUTEST: patch does not apply"; exit 3; }
 export GOFLAGS=-mod=mod GOPROXY=off GOSUMDB=off GOTOOLCHAIN=local
 ( cd "$W/repo" && go build ./... ) || { echo "MUTEST: patched tree does not compile"; exit 4; }
 rc=0
